@@ -58,7 +58,7 @@ theorem recover_of_dbinv (W : World) (db : DB) (hg : (W.blk genesisId).num = 0) 
     have hx : x = genesisId := by
       have := hc.index.genesis; rw [h1] at this; exact Option.some.inj this
     subst hx
-    obtain ⟨b1, b2, _⟩ := h2
+    obtain ⟨b1, b2⟩ := h2
     simp [canonBlk, hc.index.genesis, getBlock, hasHeader, hasBody, b1, b2, hg]
   have hhead : getBlockByHash W db head = true := by
     obtain ⟨b1, b2, b3⟩ := hc.index.headStored
@@ -68,6 +68,34 @@ theorem recover_of_dbinv (W : World) (db : DB) (hg : (W.blk genesisId).num = 0) 
   · simp [recover, hgen, hh, hhead, hrep]
   · exact (consistent_applyAll_data W head [Wr.headHdr head] db (by intro w hw; simp at hw; subst hw; simp [DataWrite]) hc).1
   · simpa [DB.applyAll, DB.apply] using hh
+
+theorem recover_db_of_dbinv (W : World) (db : DB) (hg : (W.blk genesisId).num = 0) (head : Nat)
+    (hh : db.headBlk = some head) (hc : Consistent W db head) (r : Res) (hr : recover W db = some r) :
+    r.nd.cur = head ∧ r.nd.db = db.applyAll [Wr.headHdr head] ∧ r.nd.fut = [] := by
+  have hgen : canonBlk W db 0 = some genesisId := by
+    obtain ⟨x, h1, h2, h3, _⟩ := hc.index.chain 0 (Nat.zero_le _)
+    have hx : x = genesisId := by
+      have := hc.index.genesis; rw [h1] at this; exact Option.some.inj this
+    subst hx
+    obtain ⟨b1, b2⟩ := h2
+    simp [canonBlk, hc.index.genesis, getBlock, hasHeader, hasBody, b1, b2, hg]
+  have hhead : getBlockByHash W db head = true := by
+    obtain ⟨b1, b2, b3⟩ := hc.index.headStored
+    simp [getBlockByHash, getBlock, hasHeader, hasBody, b1, b2, b3]
+  have hrep : repair W db ((W.blk head).num + 1) head = some head := repair_of_state W db _ head hc.state
+  simp [recover, hgen, hh, hhead, hrep] at hr
+  subst hr
+  exact ⟨rfl, rfl, rfl⟩
+
+theorem genesis_consistent' (W : World) (hg : (W.blk genesisId).num = 0) :
+    Consistent W (DB.genesis W) genesisId ∧ (DB.genesis W).headBlk = some genesisId := by
+  refine ⟨⟨⟨by simp [Stored, DB.genesis], by simp [DB.genesis, hg], ?_, by simp [DB.genesis]⟩, by simp [DB.genesis], ?_⟩, rfl⟩
+  · intro n hn
+    have : n = 0 := by omega
+    subst this
+    exact ⟨genesisId, by simp [DB.genesis], by simp [HasBlk, DB.genesis], hg, fun h => absurd h (by decide)⟩
+  · intro t h n i ht
+    simp [DB.genesis] at ht
 
 -- ---- only validated, executed blocks are written with state --------------------------------------------------------
 
